@@ -141,6 +141,8 @@ def cases(tier, seed):
         for driver in ("gs", "ps2"):
             for ofs in ("ofs_d", "ofs_s", "ofs_ds", "ofs_debug"):
                 yield {"k": "ofs", "model": model, "driver": driver, "ofs": ofs}
+                if driver == "gs":
+                    yield {"k": "ofs", "model": model, "driver": driver, "ofs": ofs, "schedule": "short"}
 
 
 def add(viol, sig, msg):
@@ -349,6 +351,11 @@ def ofs_model(name, seed):
             terms += [Op("p^2", k, 0.5), Op("x^2", k, 0.5 * om ** 2)]
         terms += [Op(r"a^\dagger a", ["e1", "e1"], 0.3, [0, 0]) * Op("x", "v0"), Op(r"a^\dagger a", ["e0", "e0"], -0.2, [0, 0]) * Op("x", "v1")]
         return basis, terms, [0], False
+    if name == "qc3":
+        h, eri = integrals(3, 0b111111, "generic", seed)
+        sh, aseri = h_qc.int_to_h(h, eri)
+        basis, terms = h_qc.qc_model(sh, aseri)
+        return basis, terms, [2, 1], True
     h, eri = integrals(2, 0b111, "generic", seed)
     sh, aseri = h_qc.int_to_h(h, eri)
     if name == "qc2-noqn":
@@ -374,7 +381,7 @@ def run_ofs(desc, seed):
     mask = sector_projector([np.asarray(b.sigmaqn) for b in basis0], sec)
     tag = f"[{desc['model']} {desc['driver']} {desc['ofs']}]"
     jw = is_qc
-    M = 6
+    M = 8 if desc["model"] == "qc3" else 6
     def cc():
         return CompressConfig(CompressCriteria.fixed, max_bonddim=M, ofs=ofs, ofs_swap_jw=jw)
     env.reseed(seed, ("c17run", desc["model"]))
@@ -411,7 +418,8 @@ def run_ofs(desc, seed):
 
     try:
         if desc["driver"] == "gs":
-            mps.optimize_config = OptimizeConfig(procedure=[[cc(), 0.4], [cc(), 0.2], [cc(), 0], [cc(), 0], [cc(), 0]])
+            short = desc.get("schedule") == "short"      # two sweeps without noise: the site order is still changing when the result is captured, and the captured state is exactly the local eigenvector
+            mps.optimize_config = OptimizeConfig(procedure=[[cc(), 0], [cc(), 0]] if short else [[cc(), 0.4], [cc(), 0.2], [cc(), 0], [cc(), 0], [cc(), 0]])
             mps.optimize_config.method = "2site"
             mps.compress_config = cc()
             energies, out = optimize_mps(mps, H)
@@ -445,7 +453,9 @@ def run_ofs(desc, seed):
     if [b.dofs for b in H.model.basis] != [b.dofs for b in out.model.basis]:
         add(viol, f"C17:ofs:operator-and-state-order-differ:{desc['driver']}", f"{tag}: operator order {[b.dofs for b in H.model.basis]} vs state {[b.dofs for b in out.model.basis]}")
     if not jw:
-        P = perm_matrix(dims0, order)
+        # (the operator's OWN final order: it can differ from the state's, which is the known finding reported just above)
+        order_h = [dof0.index(b.dofs) for b in H.model.basis]
+        P = perm_matrix(dims0, order_h)
         if not close(Dn, P @ D0 @ P.T, 1e-8, floor=1e-12):
             add(viol, f"C17:ofs:operator-not-permuted-original:{desc['driver']}", f"{tag}: final order {order}: rel {rel_err(Dn, P @ D0 @ P.T):.2e}")
     Hs = ((D0 + D0.conj().T) / 2)[np.ix_(mask, mask)]
@@ -454,8 +464,15 @@ def run_ofs(desc, seed):
         e = min(np.atleast_1d(np.array(energies, dtype=float)))
         if e < wex[0] - 1e-9:
             add(viol, "C17:ofs:gs:not-variational", f"{tag}: {e} < {wex[0]}")
-        if abs(e - wex[0]) > 1e-5 * max(1, abs(wex[0])):
+        short = desc.get("schedule") == "short"
+        if not short and abs(e - wex[0]) > 1e-5 * max(1, abs(wex[0])):
             add(viol, f"C17:ofs:gs:energy:{desc['ofs']}", f"{tag}: final order {order}: energy {e} vs exact {wex[0]}")
+        # the returned state is the one whose energy was reported (no truncation at this bond dimension): its energy, evaluated with the
+        # ORIGINAL dense operator after mapping the state back to the original site order, equals the reported minimum -- converged or not
+        vb, _ = fermion_back(out) if jw else perm_back(out)
+        eb = np.real(np.vdot(vb, D0 @ vb)) / np.real(np.vdot(vb, vb))
+        if abs(eb - e) > 1e-6 * max(1, abs(e)):
+            add(viol, f"C17:ofs:gs:returned-state-energy-differs-from-reported:{'jw' if jw else 'plain'}", f"{tag}: final order {order}: the returned state (mapped back) has energy {eb}, reported {e}")
         # energy of the returned state with the (re-ordered) operator -- only meaningful when the operator is in the state's order
         # (when it is not, that is reported once above as operator-and-state-order-differ)
         same_order = [b.dofs for b in H.model.basis] == [b.dofs for b in out.model.basis]
@@ -468,7 +485,7 @@ def run_ofs(desc, seed):
             gs[mask] = vex[:, 0]
             ov = abs(np.vdot(gs, v)) / np.linalg.norm(v)
             gap = wex[1] - wex[0] if len(wex) > 1 else 1.0
-            if gap > 1e-3 and abs(ov - 1) > 1e-4:
+            if gap > 1e-3 and abs(ov - 1) > 1e-4 and not short:
                 add(viol, "C17:ofs:gs:state-not-ground-state", f"{tag}: overlap of the state (permuted back) with the exact ground state {ov}")
     else:
         # time evolution: the state permuted back equals exp(-iHt) psi0 (plain swaps); with JW swaps the energy and norm are checked
